@@ -1,4 +1,5 @@
 """C19 — the print buffer holds exactly what was written, NUL-terminated, in bounds."""
+import os
 import random
 import zlib
 
@@ -65,6 +66,17 @@ def gen_history(rng, nops):
                 ops.append("PB set a %d 65 la %d" % (rng.choice([-2, -3, -2147483648]), rng.choice([0, 1, 5])))
             else:
                 ops.append("PB set %s %d 65 la %d" % (rng.choice(["a", "b"]), rng.choice([1, 10, 100]), rng.choice([-1, -5, INT_MAX, -2147483648])))
+    if rng.random() < 0.35:
+        # an allocation failure inside one operation (realloc in printbuf_extend, vasprintf in sprintbuf's long path): the operation
+        # must fail with the buffer exactly as it was, still terminated
+        out = []
+        for o in ops:
+            f = o.split()
+            if len(f) > 2 and f[1] in ("app", "fmt", "set", "str") and rng.random() < 0.15:
+                out += ["FAILNEXT 1", o, "FAILNEXT 0"]
+            else:
+                out.append(o)
+        ops = out
     return ops
 
 
@@ -98,7 +110,21 @@ def shard_fn(shard, nshards, seed, tier, exe, nhist):
         model = bytearray()
         rep = {"driver": "jcdrv", "variant": "asan", "script": cmds}
         prev_size = 0
+        armed, pending, was_term = False, None, False
         for ci, (cmd, ln) in enumerate(zip(cmds, lines)):
+            if cmd.startswith("FAILNEXT"):
+                if cmd.endswith(" 1"):
+                    armed = True
+                else:
+                    armed = False
+                    fired = int(ln.split("=")[2])
+                    if pending is not None and not fired:
+                        sh.violation("C19/wrong-return/%s" % pending[1], "returned -1 although no allocation failed, at command #%d %r" % (pending[0], cmds[pending[0]]), dict(rep, failing_command=pending[0]))
+                        break
+                    if pending is not None:
+                        sh.count("operations_failed_by_injected_fault." + pending[1])
+                    pending = None
+                continue
             if not ln.startswith("= ret="):
                 raise core.Inconclusive("bad driver line %r for %r" % (ln[:100], cmd))
             f = dict(x.split("=", 1) for x in ln.split()[1:])
@@ -109,6 +135,7 @@ def shard_fn(shard, nshards, seed, tier, exe, nhist):
             sh.evaluations += 1
             want_ret = None
             terminated = False
+            old_model = bytearray(model)
             if kind == "new":
                 model = bytearray()
                 want_ret, terminated = 1, True
@@ -148,6 +175,13 @@ def shard_fn(shard, nshards, seed, tier, exe, nhist):
                     if o2 + n == prev_size:
                         sh.count("memset.ends_exactly_at_capacity")
             key = None
+            if armed and ret == -1 and want_ret != -1:
+                # failed while a fault was armed: confirmed (fired) at the following FAILNEXT 0; the buffer must be what it was
+                model = old_model
+                pending = (ci, kind)
+                want_ret = -1
+                err = EFBIG  # errno after an injected allocation failure is not asserted
+                terminated = was_term
             if ret != want_ret:
                 key, what = "wrong-return", "returned %d, model says %d" % (ret, want_ret)
             elif want_ret == -1 and err != EFBIG:
@@ -170,6 +204,7 @@ def shard_fn(shard, nshards, seed, tier, exe, nhist):
             if kind == "fmt" and n > 127:
                 sh.count("sprintbuf.long_path")
             prev_size = size
+            was_term = terminated or (was_term and kind == "appx") or (was_term and pending is not None and pending[0] == ci)
             sh.cmax("max_size", size)
         sh.nontrivial("\n".join(cmds))
         if len(sh.samples) < 1:
@@ -180,8 +215,12 @@ def shard_fn(shard, nshards, seed, tier, exe, nhist):
 def run(tier, seed):
     bdir = build.build("asan")
     chk = core.Check(PID, tier, seed)
+    rd = core.record_dir(PID) if tier == "thorough" else None
     sh = core.parallel(shard_fn, seed=seed, tier=tier, exe=bdir + "/jcdrv", nhist=64000 if tier == "quick" else 1000000)
     chk.absorb(sh)
+    if rd:
+        os.environ.pop("VF_RECORD_DIR", None)
+        core.memcheck_recorded(chk, build.build("plain"), rd)
     chk.rule = ("random histories (10-60 ops) of printbuf_memappend / memappend_fast / strappend / memset / sprintbuf / reset with sizes chosen relative to the CURRENT capacity "
                 "(size-bpos-3..+9, so every doubling boundary and the exact-fill cases are hit), absolute sizes up to 70000, memset offsets -1/absolute/bpos+d/size+d, and must-refuse arguments "
                 "(negative, INT_MAX-adjacent, tiny source block); after every step bpos, crc32(buf[0..bpos)), terminator, bpos<=size<=real block size and the return value are compared with a byte-array model. "
